@@ -7,6 +7,7 @@ import (
 	"time"
 
 	"github.com/inbucket/inbucket/v3/pkg/extension"
+	"github.com/inbucket/inbucket/v3/vsim/models"
 	"github.com/inbucket/inbucket/v3/vsim/simnet"
 	"github.com/inbucket/inbucket/v3/vsim/simrt"
 )
@@ -30,10 +31,11 @@ type c09sCase struct {
 	Net    simnet.Profile
 	Boxes  []string
 	Actors []c09sActor
+	Prefill int // messages per mailbox delivered before the actors start
 }
 
 func (k *c09sCase) Describe() []string {
-	l := []string{fmt.Sprintf("store=%s %s mailboxes=%v", k.Store, profileString(k.Net), k.Boxes)}
+	l := []string{fmt.Sprintf("store=%s %s mailboxes=%v prefill=%d each", k.Store, profileString(k.Net), k.Boxes, k.Prefill)}
 	for i, a := range k.Actors {
 		l = append(l, fmt.Sprintf("actor%d %s box=%s n=%d %v", i, a.Kind, a.Box, a.N, a.Steps))
 	}
@@ -64,6 +66,9 @@ func genC09S(w *simrt.Choices, tier string, avoid map[string]bool) Case {
 	}
 	// at least one delivering actor
 	k.Actors[0].Kind, k.Actors[0].N, k.Actors[0].Steps = "smtp", 1+w.Choose(3), nil
+	// mail that is already there when the actors start (so that deletes, purges and
+	// POP3 sessions have something to work on from the first moment)
+	k.Prefill = []int{0, 0, 2, 4, 6}[w.Choose(5)]
 	return k
 }
 
@@ -98,6 +103,18 @@ func runC09S(c *Ctx, cs Case) {
 	stamp := func() int64 { seq++; return seq }
 	var events []c09sEvent
 	tok := 0
+	for _, b := range k.Boxes {
+		for i := 0; i < k.Prefill; i++ {
+			token := fmt.Sprintf("pre-%s-%d", b, i)
+			ev := c09sEvent{Kind: "deliver", Box: b, Token: token, Call: stamp()}
+			m := &models.Msg{Mailbox: b, Subject: token, From: people[1], Date: time.Now(), Body: mkMessage(token, "hdr@sender.test", []string{b + "@example.com"}, 40, 1)}
+			if _, err := st.AddMessage(delivery(m)); err != nil {
+				panic("harness: prefill: " + err.Error())
+			}
+			ev.Ret, ev.OK = stamp(), true
+			events = append(events, ev)
+		}
+	}
 	for ai, a := range k.Actors {
 		ai, a := ai, a
 		name := fmt.Sprintf("%s%d", a.Kind, ai)
